@@ -13,10 +13,20 @@ def VER(name, mode):
     )
 
 
-HARNESSES = [VER("srv_legacy_version", 1), VER("srv_supported_versions", 2), VER("cli_version", 3)]
+CS = dict(
+    name="cipher_spec", src="cipher_spec.c", checks=[],
+    units=["matrixssl/hsNegotiateVersion.c"],
+    functions=["sslGetCipherSpec", "matrixSslSetCipherSuiteEnabledStatus"],
+    sources=["matrixssl/cipherSuite.c"],
+    assumptions=["cipher_spec: the real supportedCiphers table of the default configuration; suite id, per-session disabled list (32 slots, arbitrary contents incl. holes), global disabled bits, flags and versions arbitrary"],
+    undefined_ok=["psGetOutputBlockLength"],
+    unwind=90, unwindset={"vf_harness:/for \\(i = 0; i < SSL_MAX_DISABLED/": 34, "vf_harness:/for \\(i = 0; i < 8/": 10, "table_index:/./": 90},
+    cases=[dict(name="op%d" % o, defs={"VF_OP": o}) for o in (0, 1, 2)],
+)
+HARNESSES = [VER("srv_legacy_version", 1), VER("srv_supported_versions", 2), VER("cli_version", 3), CS]
 PROPERTY = dict(level='model_checking',
-    claim="Server and client version selection: the negotiated version is enabled by us, not above the client's, in the client's family, the first acceptable one in our priority order; with supported_versions it is in the intersection, TLS 1.3 only if a TLS 1.3 suite was offered and always when both have it; a <1.3 ServerHello carrying a downgrade sentinel is refused.",
+    claim="Server and client version selection: the negotiated version is enabled by us, not above the client's, in the client's family, the first acceptable one in our priority order; with supported_versions it is in the intersection, TLS 1.3 only if a TLS 1.3 suite was offered and always when both have it; a <1.3 ServerHello carrying a downgrade sentinel is refused. sslGetCipherSpec never returns a suite that is on the session's disabled list (any list contents), globally disabled, or not allowed for the enabled/negotiated versions.",
     bounds='every non-empty subset (<=3 members) of one version family as the enabled set, any priority order; peer lists <= 3 versions',
-    outside='cipher-suite, group and signature-algorithm selection, fallback SCSV, extended master secret',
+    outside='the choice of the server among the offered suites, group and signature-algorithm selection, fallback SCSV, extended master secret',
     explanation="Server and client version selection: the negotiated version is enabled by us, not above the client's, in the client's family, the first acceptable one in our priority order; with supported_versions it is in the intersection, TLS 1.3 only if a TLS 1.3 suite was offered and always when both have it; a <1.3 ServerHello carrying a downgrade sentinel is refused.",
     assumptions=[])
